@@ -148,8 +148,13 @@ def run(ctx):
                           'nested buffer %s copied out of the parent is not a complete well-formed buffer on its own (independent decoder: %s)' % (path, r[:80]),
                           {'harness_line': c.h, 'schema': c.schema.name, 'path': path, 'nested_hex': nb.hex(), 'dec_line': line[:3000], 'expected': exp[:1500]})
     # model / implementation
+    known_keys = lib.load_findings()[0]
+
+    def unexplained():
+        """violations recorded so far that are not known findings (a known finding must not hide a model / implementation disagreement)"""
+        return [v for v in ctx.violations if (ctx.pid, v['key']) not in known_keys]
     for c in cases:
-        if c.himpl is not None and c.mimpl is not None and c.hrep != c.mrep and not ctx.violations:
+        if c.himpl is not None and c.mimpl is not None and c.hrep != c.mrep and not unexplained():
             what = [k for k in ('refs', 'align', 'start', 'end', 'bytes', 'emits') if c.himpl.get(k) != c.mimpl.get(k)]
             ctx.violation('corr:build:' + '+'.join(what), 'model and implementation disagree on a nested build script (%s differ)' % ','.join(what),
                           {'harness_line': c.h, 'model_line': c.m, 'schema': c.schema.name, 'impl': c.hrep[:3000], 'model': c.mrep[:3000]})
